@@ -337,3 +337,63 @@ func H20_last_messages() {
 	vrtReach("C20.last_messages")
 	svc.stop()
 }
+
+// H20_reconnect: Connect is accepted, the connection ends (the server closes
+// it, or the application calls Disconnect), and the application connects again
+// with the SAME client id: the second Connect succeeds as well, and a
+// subscription made on the new connection is served.
+func H20_reconnect() {
+	vrtClientSeq++
+	id := []byte(fmt.Sprintf("re%d", vrtClientSeq))
+	connect := func(cln *Client) (*vrtConn, error) {
+		c := vrtNewConn()
+		vrtSetDialConn(c)
+		var cerr error
+		vrtGo(func() {
+			m := message.NewConnectMessage()
+			m.SetVersion(4)
+			m.SetClientID(id)
+			m.SetCleanSession(true)
+			cerr = cln.Connect(vrtDialURI(), m)
+		})
+		vrtQuiesce()
+		c.peerTake()
+		c.peerSend([]byte{0x20, 2, 0, 0})
+		vrtJoin()
+		vrtQuiesce()
+		return c, cerr
+	}
+	cln1 := &Client{}
+	c1, e1 := connect(cln1)
+	vrtAssert("C20.connect_succeeds_on_code_0", e1 == nil)
+	if vrtBool("server_closes_first_connection") {
+		c1.peerClose()
+		vrtQuiesce()
+	} else {
+		cln1.Disconnect()
+		vrtQuiesce()
+	}
+	cln2 := &Client{}
+	c2, e2 := connect(cln2)
+	vrtAssert("C20.second_connect_succeeds", e2 == nil)
+	if e2 != nil {
+		return
+	}
+	calls := 0
+	sm := message.NewSubscribeMessage()
+	sm.AddTopic([]byte("t"), 0)
+	vrtAssert("C20.subscribe_call_ok", cln2.Subscribe(sm, nil, func(m *message.PublishMessage) error { calls++; return nil }) == nil)
+	vrtQuiesce()
+	req, okr := vrtParse(c2.peerTake())
+	if !okr || len(req) != 1 || req[0].Typ != specSUBSCRIBE {
+		vrtAssert("C20.subscribe_on_the_wire", false)
+		return
+	}
+	c2.peerSend(specEncode(&specPkt{Typ: specSUBACK, ID: req[0].ID, Codes: []byte{0}}))
+	c2.peerSend(specEncode(&specPkt{Typ: specPUBLISH, Topic: []byte("t"), Payload: []byte("m")}))
+	vrtQuiesce()
+	vrtAssert("C20.callback_once_per_matching_message", calls == 1)
+	cln2.Disconnect()
+	vrtQuiesce()
+	vrtReach("C20.reconnected")
+}
